@@ -2053,7 +2053,14 @@ class DocutilsRenderer(RendererProtocol):
             except Exception:
                 self._substitutions = self.md_config.substitutions
         variable_context: dict[str, Any] = {**self._substitutions}
-        if self.sphinx_env is not None:
+        if (
+            self.sphinx_env is not None
+            # the environment gives access to the whole application (e.g. the modules
+            # of its extensions, hence the file system), which the sandbox cannot
+            # police: it is withheld when a docutils security setting is restrictive
+            and getattr(self.document.settings, "file_insertion_enabled", True)
+            and getattr(self.document.settings, "raw_enabled", True)
+        ):
             variable_context["env"] = self.sphinx_env
 
         # fail on undefined variables
